@@ -60,6 +60,7 @@ var c01Fixtures = []string{"flat24", "nest", "tiny", "rep3"}
 func TestC01(t *testing.T) {
 	cfg := wlCfg{fixtures: c01Fixtures, maxRecs: envInt("VERIF_MAXRECS", 150), gen: vt.DefaultGen}
 	cfg.gen.LongList = 700
+	cfg.bigPct = 3
 	rapid.Check(t, func(t *rapid.T) {
 		w := genWorkload(t, cfg)
 		o := checkC01(w)
